@@ -22,6 +22,7 @@ TEXT={
  "C10":("every request id comes out of the server channel's Receive at most once and every response handler runs at most once although a chunk was re-inserted verbatim","6 C10"),
  "C11":("wire oracle on every chunk the client writes: +1 numbering with legal wrap and contiguity of a message's chunks, under scheduler-controlled interleavings of senders and renewals","6 C11"),
  "C16":("renewal timing window judged from the wire in simulated time; zero failed requests and no channel error on a fault-free network around renewals","6 C16"),
+ "C17":("responses forged under superseded tokens are injected before and after the token's lifetime + 25%; after expiry the call must not return the forged body","6 C17"),
  "C18":("every call that returns nil must have been handed the response carrying its own marker; no marker may be handed out twice; unsolicited responses must never be delivered","6 C18"),
  "C19":("bounded liveness in simulated time: each call returns by its time-out + 250 ms (or at cancellation), the pending-handler table returns to its size, later requests succeed; response/timer ties are scheduled in both orders","6 C19"),
  "C21":("process-level oracle: any panic in a client goroutine kills the worker and is the violation; every operation must return a value or an error","6 C21"),
